@@ -127,7 +127,17 @@ def validate(seed, tier):
         if Q1.shape != Q2.shape or not np.allclose(Q1 @ R1, Q2 @ R2, atol=1e-10) or list(qi1) != list(qi2):
             raise runner.HarnessError('shimmed path disagrees with plain NumPy path')
         n_ok += 1
-    return dict(random_concrete_inputs_agreeing=n_ok)
+    # charges that a double cannot represent (the symbolic charges are bounded by 2^40 so that replays fit int64; magnitudes
+    # beyond 2^53 are exercised here, on the real code)
+    big = [2 ** 53, 2 ** 53 + 1, -(2 ** 60) - 1, 2 ** 60 + 1, -(2 ** 53) - 1]
+    for trial in range(6):
+        m, n = int(rng.integers(2, 5)), int(rng.integers(2, 5))
+        q0 = np.array([big[i] for i in rng.integers(0, len(big), size=m)], dtype=np.int64)
+        q1 = np.array([big[i] for i in rng.integers(0, len(big), size=n)], dtype=np.int64)
+        A = np.where(np.add.outer(q0, -q1) == 0, rng.standard_normal((m, n)), 0.0)
+        runner.concrete_check('qr', dict(A=A.tolist(), q0=[int(x) for x in q0], q1=[int(x) for x in q1]))
+        n_ok += 1
+    return dict(random_concrete_inputs_agreeing=n_ok, of_which_with_charges_beyond_2_53=6)
 
 
 def evidence(tier, seed, total, per_task, val):
